@@ -342,6 +342,6 @@ pub fn run(r: &mut Runner) {
         groups.extend(crate::hist::binary_groups(&[Op::atan2], &[([-1.0, 0.0], [8.0, 0.0]), ([1.0, 1e-17], [-8.0, 0.0]), ([3.0, 0.0], [2.0, 1e-17])]));
         crate::hist::explore(r, "histories: asin/acos/atan/atan2", &groups, 3, &hist_judge, 14u64 << 55);
         // cross-family histories: the same judged calls, preceded by every other public function on the same operands
-        crate::hist::explore_mixed(r, "cross-family histories: any public call, then asin/acos/atan/atan2", &groups[..groups.len().min(2)], 2, &hist_judge, (14u64 << 55) + (1u64 << 53));
+        crate::hist::explore_mixed(r, "cross-family histories: any public call, then asin/acos/atan/atan2", &groups, 2, &hist_judge, (14u64 << 55) + (1u64 << 53));
     }
 }
